@@ -185,11 +185,16 @@ def main(argv):
                 path = os.path.join("replays", pid, core.digest(v) + ".json")
                 with open(os.path.join(core.VERIF_DIR, path), "w") as f:
                     json.dump(v, f, indent=1, default=repr)
-                if shown < 40:
+                if shown < int(os.environ.get('VERIF_SHOW', '40')):
                     print("VIOLATION property=%s replay=%s clause=%s tags=%s observed=%s expected=%s" % (
                         pid, path, v["clause"], json.dumps(v["tags"], sort_keys=True)[:200],
                         json.dumps(v["observed"], default=repr)[:240], json.dumps(v["expected"], default=repr)[:240]))
                     shown += 1
+        byclause = {}
+        for v in unknown:
+            byclause[v["clause"]] = byclause.get(v["clause"], 0) + 1
+        for c, n in sorted(byclause.items(), key=lambda kv: -kv[1]):
+            print("  class: %5d x %s" % (n, c))
         print("%s %s: %d violation(s) in %d class(es) (total events %d); evaluations=%d distinct_nontrivial=%d wall=%.1fs" % (
             pid, tier, len(unknown), len(seen), m["n_violations"], cov["evaluations"], distinct_nt, ev["wall_s"]))
         return 1
